@@ -13,6 +13,18 @@ extern ToInt64E
   props C06 C03
   option pure
 
+extern ToInt
+  props C06 C03
+  option pure
+
+extern ToFloat64
+  props C06 C03
+  option pure
+
+extern ToDurationE
+  props C06 C03
+  option pure
+
 extern ToStringE
   props C06 C03
   option pure
@@ -25,4 +37,14 @@ func ToFloat64E
   ensures bools-as-0-1: hasType(value, bool) ==> result1 == nil && result0 == ite(boolval(value), 1.0, 0.0)
   ensures null-is-not-a-number: value == nil ==> result1 != nil
   ensures error-means-zero: result1 != nil ==> result0 == 0.0
+
+// an integer epoch scaled by its unit (seconds when the unit is none of the four known ones)
+func ConvertIntToTime
+  props C02 C01 C08 C10 C03 C06
+  option pure
+  ensures seconds: timeUnit == 1000000000 ==> result == timestampInt * 1000000000
+  ensures milliseconds: timeUnit == 1000000 ==> result == timestampInt * 1000000
+  ensures microseconds: timeUnit == 1000 ==> result == timestampInt * 1000
+  ensures nanoseconds: timeUnit == 1 ==> result == timestampInt
+  ensures any-other-unit-counts-seconds: timeUnit != 1000000000 && timeUnit != 1000000 && timeUnit != 1000 && timeUnit != 1 ==> result == timestampInt * 1000000000
 @*/
